@@ -292,6 +292,8 @@ def _data_repr(d: Any) -> Any:
     if d is None:
         return None
     inner = getattr(d, "data", None)
+    if hasattr(inner, "__next__"):
+        return [type(d).__name__, "<lazy>"]
     if isinstance(inner, list):
         return [type(d).__name__, [_data_repr(x) for x in inner]]
     return [type(d).__name__, _jsonable(inner)]
